@@ -397,6 +397,8 @@ func c04Run(ci any) Result {
 	return res
 }
 
+func strconvItoa(i int) string { return strconv.Itoa(i) }
+
 func minInt(a, b int) int {
 	if a < b {
 		return a
@@ -434,6 +436,37 @@ func c04Gen(r *rand.Rand, tier string) []any {
 		var paths []string
 		var rewriteFrom []string
 		nops := 3 + r.Intn(12)
+		if r.Intn(5) == 0 {
+			// slice-aliasing shape: a parent group whose middleware list grew by several single Use calls
+			// (so its slice has spare capacity), then sibling sub-groups, then routes on the first sibling
+			pre := c04Segs[r.Intn(len(c04Segs))]
+			ops = append(ops, c04Op{Kind: "group", Parent: -1, Prefix: pre, Mws: newIDs(1)})
+			gs = append(gs, ginfo{"", pre})
+			usedPrefix["|"+pre] = true
+			parent := len(gs) - 1
+			for u := 0; u < 1+r.Intn(4); u++ {
+				ops = append(ops, c04Op{Kind: "groupUse", G: parent, Mws: []int{nextID}})
+				nextID++
+			}
+			nsib := 2 + r.Intn(2)
+			first := len(gs)
+			for sib := 0; sib < nsib; sib++ {
+				sp := c04Segs[(sib+r.Intn(2))%len(c04Segs)] + strconvItoa(sib)
+				ops = append(ops, c04Op{Kind: "group", Parent: parent, Prefix: sp, Mws: []int{nextID}})
+				nextID++
+				gs = append(gs, ginfo{"", pre + sp})
+			}
+			if r.Intn(2) == 0 {
+				ops = append(ops, c04Op{Kind: "groupUse", G: parent, Mws: []int{nextID}})
+				nextID++
+			}
+			for sib := 0; sib < nsib; sib++ {
+				ops = append(ops, c04Op{Kind: "add", G: first + sib, Method: "GET", Path: "/r", Hid: nextHid, Mws: newIDs(1)})
+				nextHid++
+				paths = append(paths, gs[first+sib].prefix+"/r", gs[first+sib].prefix+"/r", gs[first+sib].prefix+"/missing")
+			}
+			nops = r.Intn(4)
+		}
 		for k := 0; k < nops; k++ {
 			switch x := r.Intn(20); {
 			case x < 2:
